@@ -92,6 +92,11 @@ func genCase(r *h.Run, phase string, idx int) caseT {
 
 // ---------------------------------------------------------------- recording
 
+type holdGate struct {
+	fd              int
+	closed, release chan struct{}
+}
+
 type slowGate struct {
 	entered, release chan struct{}
 }
@@ -192,6 +197,15 @@ func runCase(r *h.Run, c caseT) {
 		// connections are created one at a time: a pending request is taken by the next open
 		if _, ok := closeInOpen.LoadAndDelete("next"); ok {
 			_ = cn.Close()
+		}
+		if v, ok := closeInOpen.LoadAndDelete("hold"); ok {
+			// closed inside its own open handler, which then does not return for a while: the
+			// descriptor number is free again although the engine has not finished with the connection
+			hg := v.(*holdGate)
+			_ = cn.Close()
+			hg.fd = cn.Hash()
+			close(hg.closed)
+			<-hg.release
 		}
 		srv <- cn
 	}
@@ -693,6 +707,146 @@ func runCase(r *h.Run, c caseT) {
 				}
 			}
 		}
+	}
+
+	// ---- descriptor number reuse: connection A is closed inside its own open handler, which is
+	// still running when connection B is added and gets A's number; A's handler returns afterwards.
+	// B is a live connection like any other: it must see its peer's close (exactly one close
+	// notification) - whatever the engine still had to do for A must not touch B
+	if c.Cfg.Net == "tcp" && rng.Intn(3) == 0 {
+		func() {
+			hg := &holdGate{closed: make(chan struct{}), release: make(chan struct{})}
+			released := false
+			rel := func() {
+				if !released {
+					released = true
+					close(hg.release)
+				}
+			}
+			defer rel()
+			pa, e := net.DialTimeout("tcp", ln.Addr().String(), 5*time.Second)
+			if e != nil {
+				return
+			}
+			defer pa.Close()
+			na, e := nbio.NBConn(pa)
+			if e != nil {
+				return
+			}
+			closeInOpen.Store("hold", hg)
+			addDone := make(chan struct{})
+			go func() {
+				defer close(addDone)
+				_, _ = env.G.AddConn(na)
+			}()
+			select {
+			case <-hg.closed:
+			case <-time.After(10 * time.Second):
+				closeInOpen.Delete("hold")
+				return
+			}
+			// make A's number the lowest free one, keep it occupied while B's socket is made
+			var fillers []*os.File
+			defer func() {
+				for _, f := range fillers {
+					f.Close()
+				}
+			}()
+			var keep *os.File
+			for i := 0; i < 64 && keep == nil; i++ {
+				f, e := os.Open("/dev/null")
+				if e != nil {
+					break
+				}
+				switch fd := int(f.Fd()); {
+				case fd == hg.fd:
+					keep = f
+				case fd < hg.fd:
+					fillers = append(fillers, f)
+				default:
+					f.Close()
+					i = 64 // the number is taken by somebody else
+				}
+			}
+			if keep == nil {
+				r.Count("fd_reuse_step_number_not_obtained", 1)
+				return
+			}
+			pb, e := net.DialTimeout("tcp", ln.Addr().String(), 5*time.Second)
+			if e != nil {
+				keep.Close()
+				return
+			}
+			var other net.Conn
+			for i := 0; i < 1000 && other == nil; i++ {
+				accMu.Lock()
+				other = accepted[pb.LocalAddr().String()]
+				accMu.Unlock()
+				if other == nil {
+					time.Sleep(time.Millisecond)
+				}
+			}
+			keep.Close() // A's number is the lowest free one now: the duplicate made by NBConn gets it
+			nb, e := nbio.NBConn(pb)
+			if e != nil || other == nil {
+				return
+			}
+			if nb.Hash() != hg.fd {
+				r.Count("fd_reuse_step_number_not_obtained", 1)
+				_ = nb.Close()
+				return
+			}
+			if _, e := env.G.AddConn(nb); e != nil {
+				return
+			}
+			select {
+			case <-srv:
+			case <-time.After(5 * time.Second):
+			}
+			rel() // A's open handler returns: the engine finishes A
+			<-addDone
+			select {
+			case <-srv:
+			case <-time.After(time.Second):
+			}
+			time.Sleep(2 * time.Millisecond)
+			_, _ = other.Write([]byte("hello B"))
+			other.Close()
+			stable := 0
+			lastCPU := h.CPUTime()
+			lastEv := int64(-1)
+			nc := 0
+			for stable < 60 {
+				w.mu.Lock()
+				if cr := w.conns[nb]; cr != nil {
+					nc = len(cr.closes)
+					cr.plan = connPlan{Origin: "add", Scenario: "fd-reuse-after-close-in-onopen", Traffic: true}
+					cr.expectPeer = true
+				}
+				if cr := w.conns[na]; cr != nil {
+					cr.plan = connPlan{Origin: "add", Scenario: "close-in-onopen-held", Traffic: true}
+					cr.appClosed = true
+				}
+				w.mu.Unlock()
+				if nc > 0 {
+					break
+				}
+				ev := atomic.LoadInt64(&progress)
+				cpu := h.CPUTime()
+				if ev == lastEv && cpu-lastCPU < 3*time.Millisecond {
+					stable++
+				} else {
+					stable = 0
+				}
+				lastEv, lastCPU = ev, cpu
+				time.Sleep(50 * time.Millisecond)
+			}
+			if nc == 0 {
+				viol("fd-reuse-after-close-in-onopen:close-not-detected", fmt.Sprintf("connection A (fd %d) was closed inside its own open handler; while that handler was still running connection B was added and got the same descriptor number; after A's handler had returned B's peer sent data and closed: B never got a close notification (stable for 3 s with idle CPU) - what the engine did for A hit B's table entry", hg.fd))
+				return
+			}
+			r.Count("fd_reuse_after_close_in_onopen_steps", 1)
+		}()
 	}
 
 	// ---- a dialed UDP connection: one datagram is exchanged with a plain echo socket (the poller
